@@ -198,6 +198,9 @@ func okHeaders(extra ...hf) []hf {
 
 // ---------- generator ----------
 
+// set by the shapes that serve several HEADERS blocks: the :status sequence of the stream just built
+var lastInfoCodes []int
+
 type h2gen struct {
 	shape string
 	data  func(r *hk.Rand) []byte
@@ -383,17 +386,24 @@ func h2Sequences() []h2gen {
 		{"informational-flood", func(r *hk.Rand) []byte {
 			n := hk.Pick(r, []int{1, 5, 6, 7, 50})
 			var b []byte
+			lastInfoCodes = nil
 			for i := 0; i < n; i++ {
-				b = append(b, headersFrame(1, []hf{{":status", hk.Pick(r, []string{"100", "103", "199"})}, {"link", "</a>"}}, false, true)...)
+				st := hk.Pick(r, []int{100, 103, 199, 100, 101})
+				b = append(b, headersFrame(1, []hf{{":status", fmt.Sprint(st)}, {"link", "</a>"}}, false, true)...)
+				lastInfoCodes = append(lastInfoCodes, st)
 			}
+			lastInfoCodes = append(lastInfoCodes, 200)
 			return cat(pre, b, headersFrame(1, okHeaders(), false, true), dataFrame(1, []byte("x"), true))
 		}},
 		{"continue-x", func(r *hk.Rand) []byte {
 			// k interim header blocks with :status 100 exactly (the status the request writer is told about)
 			var b []byte
+			lastInfoCodes = nil
 			for i, n := 0, r.Range(1, 5); i < n; i++ {
 				b = append(b, headersFrame(1, []hf{{":status", "100"}}, false, true)...)
+				lastInfoCodes = append(lastInfoCodes, 100)
 			}
+			lastInfoCodes = append(lastInfoCodes, 200)
 			return cat(pre, b, headersFrame(1, okHeaders(), false, true), dataFrame(1, []byte("x"), true))
 		}},
 		{"informational-end-stream", func(r *hk.Rand) []byte { return cat(pre, headersFrame(1, []hf{{":status", "100"}}, true, true)) }},
@@ -552,7 +562,13 @@ func genH2Cases(r *hk.Rand, quick bool, add func(*Case)) {
 			}
 			c.Opts.TimeoutMs = 1500
 			rr := r.Fork()
+			lastInfoCodes = nil
 			c.Rounds = []Round{{Data: g.data(rr), Segs: randSegs(r), End: hk.Pick(r, []string{"fin", "fin", "fin", "fin", "fin", "fin", "fin", "fin", "fin", "hold"}), Hold: 2500}}
+			c.InfoCodes = lastInfoCodes
+			if g.shape == "continue-x" {
+				// up to five interim blocks, then a complete response: the call must deliver it
+				c.Expect = "response"
+			}
 			if strings.Contains(g.shape, "flood") {
 				c.Rounds[0].Segs = nil
 				c.Flood = 48 << 20
